@@ -254,14 +254,13 @@ def node_depth_limit_obligation(res, fx, rule):
         if blk.cond is None or blk.cond not in f.nodes or len(blk.succ) != 2:
             continue
         x = f.nodes[blk.cond]
-        if x['k'] != 'BinaryOperator' or x.get('op') not in ('>=', '>', '<', '<='):
+        forms = [(l, op, r) for (l, op, r) in A.rel_forms(x, True) if op in ('>=', '>', '<', '<=') and any(y['k'] == 'MemberExpr' and y.get('n') == '_depth' for y in l.walk()) and 'v' in r]
+        if not forms:
             continue
-        l, r = x['ch']
-        if not (any(y['k'] == 'MemberExpr' and y.get('n') == '_depth' for y in l.walk()) and 'v' in r):
-            continue
+        l, op, r = forms[0]
         if A.root_loc(l)[0] != 'v' or A.root_loc(l)[1] not in pdecls:
             continue
-        limit_edge = 0 if x['op'] in ('>=', '>') else 1
+        limit_edge = 0 if op in ('>=', '>') else 1
         tgt = blk.succ[limit_edge]
         if tgt is None or tgt < 0:
             continue
